@@ -556,7 +556,7 @@ func main() {
 	}
 	// ---- raw extra_config, endpoint stages, all routers, gin behind recorded errors, HEAD replies ----
 	endpointGen{w, cfg, r}.run()
-	w.Close("proxy level: every status 100..599 x 3 modes (thorough: x 7 bodies) + 6x4 extra_config value combinations; client level: gin and mux handlers over the default factory, single backend (quick: a third of the codes per mode + boundaries; thorough: all) and all 5^2+5^3 outcome vectors for 2..3 backends; raw backend extra_config maps (57 shapes: namespace absent / ill-typed, each key absent / ill-typed / both) at proxy and client level; endpoints built by proxy.NewDefaultFactory with flatmap_filter (3 harmless declarations, 5 that build no stage) and static data (8 strategies incl. unknown and ill-typed, odd declarations) over all 5^2 (5^3) outcome vectors; routers gin (0, 1, 3 c.Error entries recorded by earlier middleware; return_error_msg on/off), mux, chi, gorilla, httptreemux, negroni; HEAD backends (no body, announced length 0/27/unknown); backend encodings json / json collection / safejson / string / no-op / unregistered names x 12 bodies (object, array, scalars, null, not JSON, empty, trailing data, truncated) x 3 modes x statuses 200/201/404/204 against an independent parse of the body as a JSON value; nontrivial = some backend status other than 200", true)
+	w.Close("proxy level: every status 100..599 x 3 modes (thorough: x 7 bodies) + 6x4 extra_config value combinations; client level: gin and mux handlers over the default factory, single backend (quick: a third of the codes per mode + boundaries; thorough: all) and all 5^2+5^3 outcome vectors for 2..3 backends; raw backend extra_config maps (57 shapes: namespace absent / ill-typed, each key absent / ill-typed / both) at proxy and client level; endpoints built by proxy.NewDefaultFactory with flatmap_filter (3 harmless declarations, 5 that build no stage) and static data (8 strategies incl. unknown and ill-typed, odd declarations) over all 5^2 (5^3) outcome vectors; routers gin (0, 1, 3 c.Error entries recorded by earlier middleware; return_error_msg on/off), mux, chi, gorilla, httptreemux, negroni; HEAD backends (no body, announced length 0/27/unknown); backend encodings json / json collection / safejson / string / no-op / unregistered names x 12 bodies (object, array, scalars, null, not JSON, empty, trailing data, truncated) x 3 modes x statuses 200/201/404/204 against an independent parse of the body as a JSON value; 13 other spellings of the encoding names (No-Op, NO-OP, JSON, SafeJSON, ...) on backends that come out of config.ServiceConfig.Init; handler reuse: one mounted handler per router x 7 backend configurations (x static / flatmap stages on gin and mux) serving 6-7 requests in a row (complete, failing, partial, error_<name>, complete again), every answer compared; nontrivial = some backend status other than 200", true)
 }
 
 type beSpec struct {
